@@ -372,12 +372,26 @@ def generate(run_seed, deep=False):
                 evaluated[j] = True
         if not live and len(ops) >= 8 and sc.random() < 0.3:
             break
+    npints_variation(st["npints"], ops)
     G.bitgen_variation(st["bitgen"], ops)
     G.generator_seed_variation(st["genseed"], ops, lambda r: r.get("op") == "call" and r.get("api") in
                                ("lganm.new", "gen.dag_avg_deg", "gen.dag_full", "gen.intervention_targets",
                                 "utils.split_data", "utils.add_edges", "utils.remove_edges") and not r.get("posseed"))
     np_star_faults(st["np_star"], ops)
     return cfg, ops
+
+
+def npints_variation(f, ops):
+    """Re-evaluations of a signature sometimes pass its integer arguments (p, K, k, n, size) as numpy integer scalars:
+    equal values are the same arguments (decided by a stream of its own, after generation)."""
+    seen = set()
+    for rec in ops:
+        r = f.random()
+        if "sig" not in rec:
+            continue
+        if rec["sig"] in seen and r < 0.15 and not rec.get("burst"):
+            rec["npints"] = True
+        seen.add(rec["sig"])
 
 
 def np_star_faults(f, ops):
@@ -474,7 +488,7 @@ def relayout(j):
 def literal(rec):
     """The same call with no reference to world objects (for the pristine evaluation)."""
     r = {k: v for k, v in rec.items() if k not in ("c", "sig", "on_shared", "relayout", "reordered", "posseed",
-                                                   "burst")}
+                                                   "burst", "npints")}
     if "m" in r:
         r["m"] = {k: v for k, v in dict(r["m"], id=None).items() if k != "via"}
     return r
@@ -499,8 +513,8 @@ def variant(rec):
 
 
 def same_call(a, b):
-    ka = {k: v for k, v in a.items() if k not in ("c", "posseed", "burst")}
-    kb = {k: v for k, v in b.items() if k not in ("c", "posseed", "burst")}
+    ka = {k: v for k, v in a.items() if k not in ("c", "posseed", "burst", "npints")}
+    kb = {k: v for k, v in b.items() if k not in ("c", "posseed", "burst", "npints")}
     if "m" in ka and "m" in kb:
         ka["m"] = {k: v for k, v in ka["m"].items() if k != "via"}
         kb["m"] = {k: v for k, v in kb["m"].items() if k != "via"}
@@ -796,7 +810,7 @@ REQUIRED_PROBES = ["pair.nontrivial", "pair.seed0", "pair.sep.reseed", "pair.sep
                                                      "nd:gen.dag_avg_deg", "pair.default_seed_argument_omitted",
                                                      "nd.separated_by_an_unseeded_library_call"]
 
-REQUIRED_PROBES = REQUIRED_PROBES + ["thread.calls_outside_main_thread", "fault.died_in_a_numpy_call(np.*)", "seed.given_as_Generator", "seed.given_as_BitGenerator"]
+REQUIRED_PROBES = REQUIRED_PROBES + ["call.integers_as_numpy_scalars", "thread.calls_outside_main_thread", "fault.died_in_a_numpy_call(np.*)", "seed.given_as_Generator", "seed.given_as_BitGenerator"]
 
 
 def simplify(op):
